@@ -392,6 +392,10 @@ def main(argv):
         os.makedirs(os.path.join(VERIF, "evidence"), exist_ok=True)
         with open(os.path.join(VERIF, "evidence", f"{prop}.json"), "w") as f:
             json.dump(evidence, f, indent=1, default=str)
+    if os.environ.get("VERIF_LINES_OUT"):
+        # tools/blindspots.py: every executed line of the library, per file
+        with open(os.path.join(os.environ["VERIF_LINES_OUT"], f"{prop}.json"), "w") as f:
+            json.dump({k[6:]: sorted(v) for k, v in sets.items() if k.startswith("lines:")}, f)
 
     # ---- report -------------------------------------------------------------------------------
     for ln in lines:
